@@ -1,0 +1,10 @@
+//go:build verif
+
+// Contracts for package sql (comment-only; read by /verif/bin/zv, never compiled into the product).
+package sql
+
+// C16: the two-argument PERCENTILE form may only wrap an existing percentile field; everything else is an error,
+// never a failed assertion inside expr.PERCENTILEOPT.
+//@ func (*fielded).percentileExprFor
+//@   requires f != nil && e != nil
+//@   modifies *
